@@ -3,6 +3,7 @@ CONSTANTS
   NWork = 6
   NMembers = 3
   MaxFaults = 1
+  CloseOnInterrupt = FALSE
 INIT Init
 NEXT Next
 INVARIANT C38_Intact
